@@ -19,7 +19,7 @@ CONSTANTS
  UDefCred = {"none", "up2", "h2"}
  UDefHostname = {"", "alt.test"}
  UDockKey = {"r1.test", "http://r1.test", "https://index.docker.io/v1/", "r1.test/ns"}
- UDockCred = {"up1", "tok1", "u1", "h1", "up1h1"}
+ UDockCred = {"up1", "tok1", "u1", "h1", "up1h1", "s1"}
  TNames = {"r1.test", "r2.test"}
  TTls = {"", "insecure", "disabled"}
  TRegcert = {"", "ca-r1.test", "ca-r2.test"}
@@ -31,7 +31,7 @@ CONSTANTS
  RHostname = {"", "alt.test"}
  RDefCred = {"up2", "h2"}
  RDockKey = {"r1.test", "https://index.docker.io/v1/"}
- RDockCred = {"up1", "h1"}
+ RDockCred = {"up1", "h1", "s1"}
  RFlagName = {"r1.test", "docker.io"}
  ProbeSet <- ProbeSetStd
  GProbes <- ProbesStd
